@@ -17,7 +17,7 @@ Proof.
   destruct w as [d0 wt gt m c g k ca pb0 wr wd lo].
   cbn [d waiter gated mu cons cg closer cancelled pb wreturned wdelivered g_lost].
   intros H Hc Hd. subst ca.
-  destruct c as [| | | |[|]| |b| |b|], g, m, wt; cbn in H, Hd; try discriminate; cbn; auto;
+  destruct c as [| | | |[|]| |b| |b| |], g, m, wt; cbn in H, Hd; try discriminate; cbn; auto;
     destruct (cstep d0) as [[? ?] [?|]]; auto.
 Qed.
 
@@ -26,7 +26,7 @@ Lemma no_stuck_close_b w : WInv w -> waiter w = true ->
   match cons w, cg w with CParked false, GDone => False | CParked false, GUnlock => False | _, _ => True end.
 Proof.
   unfold WInv, winv_b. destruct w as [d0 wt gt m c g k ca pb0 wr wd lo]. cbn.
-  intros H ->. destruct c as [| | | |[|]| |b| |b|], g; auto; destruct m, ca; cbn in H; discriminate.
+  intros H ->. destruct c as [| | | |[|]| |b| |b| |], g; auto; destruct m, ca; cbn in H; discriminate.
 Qed.
 
 Lemma closer_enabled_when_done w : cons w = CDone -> closer w = KAwait -> enabled w TCloser = true.
@@ -37,7 +37,7 @@ Proof.
   unfold WInv, winv_b, enabled, wstep, cons_step.
   destruct w as [d0 wt gt m c g k ca pb0 wr wd lo].
   cbn [d waiter gated mu cons cg closer cancelled pb wreturned wdelivered g_lost].
-  intros H -> Hd. destruct c as [| | | |[|]| |b| |b|]; cbn in H, Hd; try discriminate; cbn; auto;
+  intros H -> Hd. destruct c as [| | | |[|]| |b| |b| |]; cbn in H, Hd; try discriminate; cbn; auto;
     try (rewrite !andb_false_r in H; discriminate).
   destruct (cstep d0) as [[? ?] [?|]]; auto.
 Qed.
@@ -105,7 +105,7 @@ Lemma wstep_pi w t : waiter w = true -> PI w -> PI (wexec1 w t).
 Proof.
   intros Hwt [Hlen HP]. unfold wexec1, wstep. destruct t as [| | |p].
   - (* consumer *)
-    unfold cons_step. destruct (cons w) as [| | | |sig| |b| |b|] eqn:Ec; cbn [waiting] in *.
+    unfold cons_step. destruct (cons w) as [| | | |sig| |b| |b| |] eqn:Ec; cbn [waiting] in *.
     + destruct (mu w); split; cbn; auto; try discriminate. rewrite Ec; auto.
     + destruct (cstep (d w)) as [[l d'] got] eqn:Ecs.
       assert (Hl : length (prods d') = length (prods (d w))).
@@ -125,7 +125,7 @@ Proof.
     unfold cancel_step. destruct (cg w).
     + destruct (cancelled w); split; solve [exact Hlen|exact HP].
     + destruct (mu w); split; solve [exact Hlen|exact HP].
-    + unfold wake. destruct (cons w) as [| | | |[|]| | | | |] eqn:Ec; split; cbn; auto; try discriminate.
+    + unfold wake. destruct (cons w) as [| | | |[|]| | | | | |] eqn:Ec; split; cbn; auto; try discriminate.
     + split; solve [exact Hlen|exact HP].
     + split; solve [exact Hlen|exact HP].
   - (* closer *)
@@ -136,7 +136,7 @@ Proof.
   - (* producer *)
     unfold prod_step. destruct (nth p (pb w) None) as [m|] eqn:Eb.
     + (* Broadcast *)
-      unfold wake. destruct (cons w) as [| | | |[|]| | | | |] eqn:Ec; split; cbn; rewrite ?upd_length; auto; try discriminate.
+      unfold wake. destruct (cons w) as [| | | |[|]| | | | | |] eqn:Ec; split; cbn; rewrite ?upd_length; auto; try discriminate.
       all: rewrite orb_true_r; discriminate.
     + destruct (pstep (d w) p) as [[l d']|] eqn:Eps; [|split; auto].
       destruct l as [wi|o|[|]|o]; cbn.
@@ -272,7 +272,7 @@ Qed.
 Lemma wstep_oi w t : OI w -> OI (wexec1 w t).
 Proof.
   intros (H1 & H2 & H3). unfold wexec1, wstep. destruct t as [| | |p].
-  - unfold cons_step. destruct (cons w) as [| | | |sig| |b| |b|] eqn:Ec; cbn [inhand] in *.
+  - unfold cons_step. destruct (cons w) as [| | | |sig| |b| |b| |] eqn:Ec; cbn [inhand] in *.
     + destruct (mu w); repeat split; cbn; rewrite ?Ec; auto.
     + destruct (cstep (d w)) as [[l d'] got] eqn:Ecs. destruct (cstep_logs _ _ _ _ Ecs) as (R & L & D).
       destruct got as [b|]; repeat split; cbn; rewrite ?R, ?D, ?map_app; try congruence; unfold bucket in *.
@@ -289,7 +289,7 @@ Proof.
   - unfold cancel_step. destruct (cg w).
     + destruct (cancelled w); repeat split; auto.
     + destruct (mu w); repeat split; auto.
-    + unfold wake. destruct (cons w) as [| | | |[|]| | | | |] eqn:Ec; repeat split; cbn; rewrite ?Ec in *; auto.
+    + unfold wake. destruct (cons w) as [| | | |[|]| | | | | |] eqn:Ec; repeat split; cbn; rewrite ?Ec in *; auto.
     + repeat split; auto.
     + repeat split; auto.
   - unfold closer_step. destruct (closer w).
@@ -303,7 +303,7 @@ Proof.
       assert (HP : Permutation (map snd (returned (d w))) ((wreturned w ++ [m]) ++ concat (map omsg (upd (pb w) p None)))).
       { rewrite E2. rewrite E1 in H2. etransitivity; [exact H2|]. rewrite <- app_assoc. apply Permutation_app_head.
         cbn. symmetry. apply Permutation_middle. }
-      unfold wake. destruct (cons w) as [| | | |[|]| | | | |] eqn:Ec; repeat split; cbn; rewrite ?upd_length; rewrite ?Ec in *; auto.
+      unfold wake. destruct (cons w) as [| | | |[|]| | | | | |] eqn:Ec; repeat split; cbn; rewrite ?upd_length; rewrite ?Ec in *; auto.
     + destruct (pstep (d w) p) as [[l d']|] eqn:Eps; [|repeat split; auto].
       destruct (pstep_logs _ _ _ _ Eps) as (D & L & Rn & Rc).
       destruct l as [wi|o|[|]|o]; cbn.
